@@ -757,10 +757,39 @@ void itrange_case_in(i64 len, i64 i, i64 j, char const *cn)
   // range::size of an int range with the same ends
   if (static_cast<i64>(fcppt::range::size(fcppt::make_int_range(static_cast<int>(i), static_cast<int>(j)))) != j - i) fail("range::size|int_range", ctx());
 }
+// iterator::range over the library's own cyclic_iterator: [begin, end) is walked by ++ until it
+// EQUALS end - for a cyclic iterator that may wrap around the boundary, and its operator< (a
+// comparison of the underlying positions) says nothing about reachability. The range stores exactly
+// the two iterators it was given.
+void itrange_cyclic_case(i64 len, i64 i, i64 j)
+{
+  if (len == 0) return;
+  std::vector<int> v;
+  for (i64 k = 0; k < len; ++k) v.push_back(static_cast<int>(50 + 3 * k));
+  using base_it = std::vector<int>::const_iterator;
+  using cyc = fcppt::cyclic_iterator<base_it>;
+  typename cyc::boundary const bound{v.cbegin(), v.cend()};
+  i64 const bi = i % len, bj = j % len;
+  cyc const b(std::next(v.cbegin(), bi), bound), e(std::next(v.cbegin(), bj), bound);
+  std::vector<int> want;
+  for (i64 k = bi; k != bj; k = (k + 1) % len) want.push_back(v[static_cast<std::size_t>(k)]);
+  auto const ctx = [&] { return "cyclic iterators over a vector of length " + str(len) + ", from index " + str(bi) + " to index " + str(bj) + (bj < bi ? " (wrapping)" : ""); };
+  auto const r = fcppt::iterator::make_range(b, e);
+  if (!(r.begin() == b) || !(r.end() == e)) fail("iterator::make_range|begin-end|cyclic_iterator", ctx() + ": the range does not hold the iterators it was given");
+  std::vector<int> got;
+  std::size_t guard = 0;
+  for (auto it = r.begin(); !(it == r.end()) && guard < 64; ++it, ++guard) got.push_back(*it);
+  if (got != want) fail("iterator::make_range|sequence|cyclic_iterator", ctx() + ": " + str(got.size()) + " elements, expected " + str(want.size()));
+}
 void itrange_one(Ints const &c)
 {
   i64 const len = clampi(geti(c, 1), 0, 8), i = clampi(geti(c, 2), 0, len), j = clampi(geti(c, 3), i, len);
   count(i == j || i == 0 || j == len);
+  if ((geti(c, 0) & 1) == 0)
+  {
+    itrange_cyclic_case(len, i, j);
+    itrange_cyclic_case(len, j, i); // the wrapping direction
+  }
   if (geti(c, 0) & 1) itrange_case_in<std::list<int>>(len, i, j, "std::list");
   else itrange_case_in<std::vector<int>>(len, i, j, "std::vector");
 }
